@@ -225,3 +225,13 @@ Proof.
   destruct (gen_fast_total build sizes nms jds pis V HP Hc) as [[cs [[ce cn] ci]] Hf].
   eexists. apply gen_network_of_fast. exact Hf.
 Qed.
+
+(* the wire entry point c01_net_run is gen_network on the decoded input *)
+Lemma c01_net_run_unfold t :
+  c01_net_run t =
+  match gen_network (build_of_codes (t_nats (t_nth 3 t))) (t_nats (t_nth 2 t))
+                    (map (hd 0) (t_natss (t_nth 4 t))) (t_natss (t_nth 1 t)) (t_natss (t_nth 6 t)) with
+  | Err e => t_err e
+  | Ok (cs, g) => L [L (map (fun c => enc_call (flat_call c)) cs); enc_net g]
+  end.
+Proof. reflexivity. Qed.
